@@ -288,11 +288,13 @@ func (c *RemoteClient) Ready(ctx context.Context, nextMessageID uint64) error {
 	logger.InfoWithFields(ctx, []logger.Field{
 		logger.Uint64("next_message_id", nextMessageID),
 	}, "Sending ready message")
+	// Set the expected id before the server is told to start sending. The first messages can be
+	// received, and advance the id, before sendDirect returns.
+	c.nextMessageID.Store(nextMessageID)
 	if err := c.sendDirect(ctx, &Message{Payload: m}); err != nil {
 		return err
 	}
 
-	c.nextMessageID.Store(nextMessageID)
 	c.handshakeComplete.Store(true)
 	logger.Info(ctx, "Marked handshake complete")
 	handshakeCompleteChannel := c.handshakeCompleteChannel.Load()
